@@ -21,7 +21,7 @@ EvalEnc(c) ==
         THEN LET e == EncMsg(m) IN << "E", c[2], e, IF Parse(e) = OkOf(m) THEN 1 ELSE 0 >>
         ELSE << "E", c[2], 0, 0 >>
 
-EvalDec(c) == << "D", c[2], Classify(c[3]), Reserialises(c[3]) >>
+EvalDec(c) == LET cl == Classify(c[3]) IN << "D", c[2], cl, ReserialisesC(cl, c[3]) >>
 
 EvalCase(c) == IF c[1] = "enc" THEN EvalEnc(c) ELSE EvalDec(c)
 
